@@ -6,7 +6,7 @@ import numpy as np
 
 from magpylib._src.display.traces_core import make_Tetrahedron
 from magpylib._src.fields.field_BH_tetrahedron import BHJM_magnet_tetrahedron
-from magpylib._src.input_checks import check_format_input_vector
+from magpylib._src.input_checks import check_format_input_tetrahedron
 from magpylib._src.obj_classes.class_BaseExcitations import BaseMagnet
 
 
@@ -111,15 +111,7 @@ class Tetrahedron(BaseMagnet):
     @vertices.setter
     def vertices(self, dim):
         """Set Tetrahedron vertices (a,b,c), shape (3,), (meter)."""
-        self._vertices = check_format_input_vector(
-            dim,
-            dims=(2,),
-            shape_m1=3,
-            length=4,
-            sig_name="Tetrahedron.vertices",
-            sig_type="array_like (list, tuple, ndarray) of shape (4,3)",
-            allow_None=True,
-        )
+        self._vertices = check_format_input_tetrahedron(dim)
 
     @property
     def _barycenter(self):
